@@ -14,7 +14,7 @@ TRUSTED = ['Coq 8.16.1 kernel',
 ASSUMPTIONS = ['hash collision-freedom on the finite set of blocks involved (recorded blocks, damaged blocks, candidate reconstructions)',
                'import directories (-i), hash migration in progress (rehash) and split parity are not in the fix model (split is C17\'s refinement)',
                'I/O errors other than missing/short files and lost/short parity are not modelled here (C08)',
-               "a fix that gives up in the middle of the run with `DANGER! file ... disappeared` (state_search_fetch opening a same-stamp file that fix itself renamed to *.unrecoverable in an earlier stripe) is not modelled: such a run is judged by the property checks only, not compared with the model",
+               'state_search_fetch: the model reads a same-stamp candidate as it is when the search looks (FixModel.search_view); a candidate that became SHORTER than the block to read is approximated by the end of its block list',
                'parity corruption correlated between levels (e.g. two levels zero-filled, the same constant xored into two levels) can be mutually consistent and is outside "detectable damage"']
 NOW = -7
 JBASE = 4294967296
@@ -481,16 +481,6 @@ class ModelSide:
         """run the model on the captured pre-state and compare with the real run; returns list of differences"""
         if cap is None:
             return []
-        self.real_aborted = None
-        if cmd in ('fix', 'check'):
-            # state_search_fetch (search.c search_file_compare) exits at once when a file of the search set -- the list of
-            # all files of the array taken when the command starts -- cannot be opened any more: this happens when fix itself
-            # has renamed that file to *.unrecoverable in an earlier stripe and a later damaged block has the same size and
-            # time-stamp.  The model has no notion of the tool giving up in the middle of the run: not compared.
-            for t in r.tags:
-                if t.startswith('msg:fatal: DANGER! file') and 'disappeared' in t:
-                    self.real_aborted = t
-                    return []
         out = self.run_model(cap)
         if not out.startswith('ok '):
             return ['model failed: %s' % out[:200]]
